@@ -28,6 +28,8 @@ class CallMixin(object):
                 return self.eval_old(n.args[0])
             if f.id in ('forall', 'exists'):
                 return self.spec_quant(f.id, n)
+            if f.id in ('entry', 'head'):
+                return self.eval_snapshot(f.id, n.args[0], self.concrete_int(self.eval(n.args[1])) if len(n.args) > 1 else 0)
             if f.id == 'implies':
                 a = self.spec_truth(n.args[0])
                 mark = len(self.pc)
@@ -270,6 +272,10 @@ class CallMixin(object):
         # spec environment over the callee's parameters
         pre_env = dict(env)
         old_snapshot = copy.deepcopy(pre_env)
+        saved_old_ghost = getattr(self, 'old_ghost', None)
+        saved_old_kappa = getattr(self, 'old_kappa', None)
+        self.old_ghost = dict(self.ghost.get('g', {}))
+        self.old_kappa = self.kappa
         fr = Frame(func, dict(env), obj)
         fr.ctypes = ctypes
         fr.local_names = set(env)
@@ -306,6 +312,8 @@ class CallMixin(object):
             return fr.env['result']
         finally:
             self.old_env = saved_old
+            self.old_ghost = saved_old_ghost
+            self.old_kappa = saved_old_kappa
             self.frames.pop()
 
     def bind_lets(self, c, fr):
@@ -340,6 +348,13 @@ class CallMixin(object):
         if path == 'kappa':
             self.note_write(('K',), 'kappa')
             self.kappa = self.fresh('kappa', INT)
+            return
+        if path.startswith('ghost:'):
+            name = path[6:]
+            g = self.ghost.setdefault('g', {})
+            cur = g.get(name)
+            self.note_write(('G', name), path)
+            g[name] = self.fresh('ghost_' + name, cur.sort if cur is not None else tm.ArraySort(INT, REAL))
             return
         contents = path.endswith('[*]')
         p = path[:-3] if contents else path
@@ -413,10 +428,46 @@ class CallMixin(object):
         fr.ctypes = self.frame.ctypes
         fr.local_names = set(self.old_env)
         self.frames.append(fr)
+        saved_g = self.ghost.get('g', {})
+        saved_k = self.kappa
+        if getattr(self, 'old_ghost', None) is not None:
+            self.ghost['g'] = dict(self.old_ghost)
+        if getattr(self, 'old_kappa', None) is not None:
+            self.kappa = self.old_kappa
         try:
             return self.eval(node)
         finally:
             self.frames.pop()
+            self.ghost['g'] = saved_g
+            self.kappa = saved_k
+
+    def eval_snapshot(self, which, node, k):
+        fr = self.frame
+        # the function frame that owns the loops is the nearest one carrying loop snapshots
+        owner = None
+        for f in reversed(self.frames):
+            if hasattr(f, 'loop_entry') and k in (f.loop_entry if which == 'entry' else f.loop_head):
+                owner = f
+                break
+        if owner is None:
+            raise EngineError('%s(.., %d): no snapshot of that loop' % (which, k))
+        snap, kap, gsnap = (owner.loop_entry if which == 'entry' else owner.loop_head)[k]
+        env = dict(fr.env)
+        env.update(snap)
+        f2 = Frame(fr.func, env, snap.get('self', fr.self_obj))
+        f2.ctypes = fr.ctypes
+        f2.local_names = set(env)
+        saved_k = self.kappa
+        saved_g = self.ghost.get('g', {})
+        self.kappa = kap
+        self.ghost['g'] = gsnap
+        self.frames.append(f2)
+        try:
+            return self.eval(node)
+        finally:
+            self.frames.pop()
+            self.kappa = saved_k
+            self.ghost['g'] = saved_g
 
     def spec_quant(self, kind, n):
         """forall(lambda i, j: body)  /  forall(lambda i: body)  — integer-sorted bound variables"""
